@@ -240,7 +240,7 @@ Proof.
     destruct (find_row_some _ _ _ F) as [Hin Hid].
     destruct I as [I1 I2 I3 I4 I5].
     set (n := {| f_id := x; f_rowid := f_rowid old;
-                 f_a := match a with Some t => t | None => f_a old end;
+                 f_a := match a with Some v => v | None => f_a old end;
                  f_b := match b with Some v => v | None => f_b old end |}) in *.
     assert (Hnid : f_id n = f_id old) by (cbn; congruence).
     destruct (replace_row_spec (rows st) old n I1 Hin Hnid eq_refl) as [R1 [R2 [R3 [R4 R5]]]].
@@ -251,7 +251,7 @@ Proof.
     assert (Hlen : (1 <= length (rows st))%nat) by (destruct (rows st); [inversion Hin|cbn; lia]).
     assert (C : ((ntok st <? ntrig (row_text old)) || (nrow st <? 1))%bool = false).
     { apply Bool.orb_false_iff. split; apply Z.ltb_ge; lia. }
-    rewrite C in *. cbn [fst snd] in *.
+    rewrite C, Bool.andb_false_r in *. cbn [fst snd] in *.
     constructor; cbn [rows idx nrow ntok].
     + rewrite R1. exact I1.
     + rewrite R2. exact I2.
@@ -262,7 +262,7 @@ Proof.
         -- intros E. apply Hq2. f_equal. apply (nodup_slot_unique (rows st)); auto.
         -- apply I3. exact Hq1.
     + lia.
-    + rewrite R3. exact I5.
+    + rewrite R3. destruct (negb (Nat.eqb (length (row_text old)) 0)); lia.
   - (* delete *)
     destruct (find_row x (rows st)); cbn [fst]; [apply inv_remove; exact I|exact I].
   - (* synchronisation write: excluded *)
@@ -337,13 +337,13 @@ Definition t_delta : text := [100; 101; 108; 116; 97]%N.
 Definition t_epsilon : text := [101; 112; 115; 105; 108; 111; 110]%N.
 
 (* class 1: a row written by synchronisation is not found *)
-Definition witness_sync : c17case := C17Case 1 40 [FSyncPut 1%N t_alpha None; FCheck [t_alpha]].
+Definition witness_sync : c17case := C17Case 1 40 [FSyncPut 1%N (Some t_alpha) None; FCheck [t_alpha]].
 Lemma refuted_sync : spec_C17 witness_sync (run_C17 witness_sync) = false /\ known_C17 witness_sync = [1].
 Proof. vm_compute. split; reflexivity. Qed.
 
 (* class 2: the last row is deleted, the next row takes its slot and answers for the deleted text *)
 Definition witness_reuse : c17case :=
-  C17Case 1 40 [FCreate 1%N t_gamma_delta None; FDelete 1%N; FCreate 2%N t_epsilon None; FCheck [t_delta; t_epsilon]].
+  C17Case 1 40 [FCreate 1%N (Some t_gamma_delta) None; FDelete 1%N; FCreate 2%N (Some t_epsilon) None; FCheck [t_delta; t_epsilon]].
 Lemma refuted_reuse : spec_C17 witness_reuse (run_C17 witness_reuse) = false /\ known_C17 witness_reuse = [2] /\
   search (frun_state (c17_init witness_reuse) (c17_ops witness_reuse)) t_delta = [2%N].
 Proof. vm_compute. repeat split; reflexivity. Qed.
@@ -351,16 +351,27 @@ Proof. vm_compute. repeat split; reflexivity. Qed.
 (* a local edit of a row that arrived by synchronisation issues a 'delete' for text the index never
    held: the totals are drained and the next such edit is refused (flag 2 = write error) *)
 Definition witness_drain : c17case :=
-  C17Case 1 5 [FSyncPut 1%N t_gamma_delta None; FSyncPut 2%N t_gamma_delta None;
-               FUpdate 1%N (Some t_alpha) None; FUpdate 2%N (Some t_alpha) None].
+  C17Case 1 5 [FSyncPut 1%N (Some t_gamma_delta) None; FSyncPut 2%N (Some t_gamma_delta) None;
+               FUpdate 1%N (Some (Some t_alpha)) None; FUpdate 2%N (Some (Some t_alpha)) None].
 Lemma drain_refused : run_C17 witness_drain = [2; 2].
 Proof. vm_compute. reflexivity. Qed.
 
 Definition example_ok : c17case :=
-  C17Case 1 40 [FCreate 1%N t_gamma_delta (Some t_alpha); FCreate 2%N t_epsilon None; FCheck [t_delta; t_alpha];
-                FUpdate 1%N None (Some None); FUpdate 2%N (Some t_delta) None; FDelete 1%N; FCheck [t_delta; t_alpha; t_epsilon]].
+  C17Case 1 40 [FCreate 1%N (Some t_gamma_delta) (Some t_alpha); FCreate 2%N (Some t_epsilon) None; FCheck [t_delta; t_alpha];
+                FUpdate 1%N None (Some None); FUpdate 2%N (Some (Some t_delta)) None; FDelete 1%N; FCheck [t_delta; t_alpha; t_epsilon]].
 Lemma nonvacuous :
   known_C17 example_ok = [] /\ fev_guard (frun_events (c17_init example_ok) (c17_ops example_ok)) = false /\
   spec_C17 example_ok (run_C17 example_ok) = true /\
   search (frun_state (c17_init example_ok) (c17_ops example_ok)) t_delta = [2%N].
+Proof. vm_compute. repeat split; reflexivity. Qed.
+
+(* every text field of a row set to null (in one update, and in successive updates), then text set
+   again: the former text is not found any more, the new one is *)
+Definition example_null_all : c17case :=
+  C17Case 1 40 [FCreate 1%N (Some t_gamma_delta) (Some t_alpha); FCreate 2%N (Some t_epsilon) None;
+                FUpdate 1%N (Some None) (Some None); FCheck [t_delta; t_alpha; t_epsilon];
+                FUpdate 2%N (Some None) None; FCheck [t_delta; t_alpha; t_epsilon];
+                FUpdate 1%N None (Some (Some t_delta)); FUpdate 2%N (Some (Some t_alpha)) None; FCheck [t_delta; t_alpha; t_epsilon]].
+Lemma null_all_ok :
+  known_C17 example_null_all = [] /\ fev_guard (frun_events (c17_init example_null_all) (c17_ops example_null_all)) = false /\ spec_C17 example_null_all (run_C17 example_null_all) = true /\ map (fun w => search (frun_state (c17_init example_null_all) (firstn 4 (c17_ops example_null_all))) w) [t_delta; t_alpha; t_epsilon] = [[]; []; [2%N]] /\ map (fun w => search (frun_state (c17_init example_null_all) (c17_ops example_null_all)) w) [t_delta; t_alpha; t_epsilon] = [[1%N]; [2%N]; []].
 Proof. vm_compute. repeat split; reflexivity. Qed.
